@@ -708,6 +708,16 @@ Proof.
   - apply in_map_iff in H. destruct H as [j [E Hj]]. apply in_seq in Hj. lia.
 Qed.
 
+Lemma var_bld_ok : forall m, (forall k, 1 <= m k) -> bld_ok (var_bld m).
+Proof.
+  intros m Hm k nx. unfold var_bld. cbn [fst snd]. specialize (Hm k). repeat split.
+  - destruct (m k); [lia|]. discriminate.
+  - apply FinFun.Injective_map_NoDup; [|apply seq_NoDup].
+    intros x y E. apply N.add_cancel_l in E. apply Nat2N.inj. exact E.
+  - apply in_map_iff in H. destruct H as [j [E _]]. lia.
+  - apply in_map_iff in H. destruct H as [j [E Hj]]. apply in_seq in Hj. lia.
+Qed.
+
 Lemma add_tasks_range : forall b items adds next gen, bld_ok b ->
   NoDup (flat_map it_nodes (map snd (add_tasks b items next gen adds))) /\
   (forall n, In n (flat_map it_nodes (map snd (add_tasks b items next gen adds))) ->
